@@ -128,6 +128,22 @@ pub fn hdr_oracle(c: &crate::props::c10::HdrCase, obs: &mut Obs) -> Vec<Violatio
     out
 }
 
+/// tag of the first block-4 field in which two message texts differ ("header" when the difference is
+/// outside block 4, "-" when one text has fewer fields)
+fn first_diff_tag(a: &str, b: &str) -> String {
+    let (_, ta) = crate::refs::tokenize(&crate::props::c10::block4_of(a));
+    let (_, tb) = crate::refs::tokenize(&crate::props::c10::block4_of(b));
+    for (x, y) in ta.iter().zip(tb.iter()) {
+        if x != y {
+            return x.tag.clone();
+        }
+    }
+    if ta.len() != tb.len() {
+        return "-".into();
+    }
+    "header".into()
+}
+
 fn full_oracle(mt: &str, x: &str, mutation: &str, scope: &str, obs: &mut Obs) -> Vec<Violation> {
     let mut out = Vec::new();
     let ops = msg_ops(mt);
@@ -170,7 +186,10 @@ fn full_oracle(mt: &str, x: &str, mutation: &str, scope: &str, obs: &mut Obs) ->
             }
             if m2.mt_message != m.mt_message {
                 out.push(viol(
-                    format!("C08|{scope}|mt-differs-after-json"),
+                    format!(
+                        "C08|{scope}|mt-differs-after-json|{}",
+                        first_diff_tag(&m.mt_message, &m2.mt_message)
+                    ),
                     format!(
                         "message rebuilt from JSON serialises differently:\n{}\nvs\n{}",
                         m.mt_message, m2.mt_message
@@ -195,7 +214,10 @@ fn full_oracle(mt: &str, x: &str, mutation: &str, scope: &str, obs: &mut Obs) ->
         Ok(t) => {
             if t != m.mt_message {
                 out.push(viol(
-                    format!("C08|{scope}|publish-differs"),
+                    format!(
+                        "C08|{scope}|publish-differs|{}",
+                        first_diff_tag(&m.mt_message, &t)
+                    ),
                     format!(
                         "publish_mt text differs from to_mt_message:\n{}\nvs\n{}",
                         t, m.mt_message
